@@ -17,7 +17,7 @@ RULE = ("ess-T: weight vectors of length 1..1e4 (log-uniform exponents spanning 
         "np.percentile(w,p) against the model bit for bit (same IEEE operations in the same order). trim-Q: dyadic weights with power-of-two sum, "
         "(n,bins) restricted to pairs for which every virtual index (n-1)*(p_i/100) is computed exactly in floating point (checked per pair), "
         "bins in {1,2,3,4,5,7,10,12,13,23,34,100,...}: kept index set exact, returned weights = correctly rounded exact model weights, unless the "
-        "exact ESS ratio of some pass is within 1e-12 of the requested fraction (near tie). trim-T: tempering-like w~exp(-k rank), heavy ties, "
+        "exact ESS ratio of some deciding pass is within 1e-12 of the requested fraction (near tie); 1 case in 12 uses ess=1.5 so that the unconditional break at grid index 0 is exercised. trim-T: tempering-like w~exp(-k rank), heavy ties, "
         "duplicates, zeros, log-normal; bins=1000/ess=0.99 (sampler constants) and others: kept index set exact unless a deciding margin "
         "(|w_i-theta| relative or |ratio-ess|) is < 1e-9, weights relative 1e-9; non-trivial = something was trimmed or more than one pass ran. "
         "volvar-reference: real volume_variation vs an exact-rational transcription of Lemmas.VolVar.volvar (all branches) on dyadic clouds; "
@@ -27,12 +27,13 @@ MODELLED = ["np.sum is modelled as a left fold (numpy sums pairwise): identical 
             "modelled by hand in Model/Trim.lean and checked bit for bit against the installed numpy (pct-F, lin-F); a numpy change would surface there",
             "`x**2.0` is modelled as x*x (numpy's fast path)",
             "volume_variation is modelled over the reals with Mathlib matrices (not executable); np.linalg.matrix_rank(cov) < d is modelled as "
-            "'det cov = 0' and LinAlgError as 'regularised matrix still singular'; the tie to the code is a Python transcription of that definition "
+            "'det cov = 0' and the LinAlgError fall-back (1e10) as 'the ridge-regularised matrix is still singular' (reachable only when trace cov = 0); the tie to the code is a Python transcription of that definition "
             "evaluated in exact rational arithmetic plus the invariance tests on the real function; the literal 1e-6 is the real number 10^-6 in Lean "
             "and the nearest double in Python",
             "NaN / inf weights, negative weights and empty arrays are outside the statement and not generated",
-            "float rounding inside the ESS-ratio stop test: at grid index 0 the computed ratio is 1.0 up to rounding; for ess within ~1e-15 of 1 "
-            "termination is empirical (the statement has ess in (0,1))"]
+            "the loop breaks unconditionally at grid index 0 (`or i == 0`, fix 8ceb8ba; mirrored in Model.Trim.search), so termination no longer "
+            "depends on the rounded ESS ratio; C20_trim_ess at index 0 uses that the exact ratio is 1 (in doubles it can be one ulp short: the "
+            "search oracle allows 1e-12 relative slack)"]
 ASSUMPTIONS = ["weights are finite, non-negative, with positive sum; 0 < ess < 1; bins >= 1",
                "affine invariance of the volume metric holds on the full-rank branch only (carried as a hypothesis of C20_volvar_affine_invariant); "
                "the ridge-regularised branch (rank < d) is not affine invariant"]
@@ -340,7 +341,8 @@ def _trim_Q(tier, drv):
         fam, ks = _pow2_ints(rng, n, m)
         e = rng.choice([0, 0, 0, 3, -7, 40])
         ws = [Fraction(k) * Fraction(2) ** (e - m) for k in ks]
-        ess = rng.choice(ess_vals)
+        # 1 case in 12 asks for more than the grid can give (ess = 1.5): exercises the unconditional break at grid index 0
+        ess = 1.5 if rng.random() < 1 / 12 else rng.choice(ess_vals)
         lines.append(f"trim.Q w={flist(ws, frac2s)} ess={frac2s(Fraction(ess))} bins={bins}")
         meta.append((ws, ess, bins, fam))
     res = drv.batch(lines)
@@ -361,7 +363,8 @@ def _trim_Q(tier, drv):
             c.disagree(kind="trim", w_hex=[f2hex(x) for x in wf], ess=ess, bins=bins, impl=s.tolist()[:50], model=ans[:200])
             continue
         e = Fraction(ess)
-        margin = mo["ratio"] - e
+        # the pass at grid index 0 breaks unconditionally (`or i == 0`): its ratio decides nothing
+        margin = (mo["ratio"] - e) if mo["stop"] > 0 else Fraction(1)
         if mo["rej"] is not None:
             margin = min(margin, e - mo["rej"])
         if margin < Fraction(1, 10 ** 12):
@@ -369,6 +372,8 @@ def _trim_Q(tier, drv):
             continue
         c.count("trimmed" if len(mo["idx"]) < n else "kept_all")
         c.count("passes>1" if mo["stop"] < bins - 1 else "passes=1")
+        if mo["stop"] == 0 and mo["ratio"] < e:
+            c.count("bottom-of-grid-break")
         if bins > 1 and (Fraction(99 * mo["stop"] * (n - 1), 100 * (bins - 1))).denominator > 1:
             c.count("stop-pass-interpolates")
         same = (s.tolist() == mo["idx"] and len(wt) == len(mo["wt"])
@@ -425,7 +430,8 @@ def _margins(w, ess, bins, upto):
         k = wn[wn >= th]
         k = k / np.sum(k)
         r = (1.0 / np.sum(k ** 2.0)) / tot
-        m_ratio = min(m_ratio, abs(r - ess))
+        if i > 0:           # at i == 0 the loop breaks whatever the ratio is
+            m_ratio = min(m_ratio, abs(r - ess))
     return m_thr, m_ratio
 
 
